@@ -147,6 +147,8 @@ impl Prop for MlsaSpectrum {
         let tier_k = if std::env::var("VERIF_TIER").ok().as_deref() == Some("thorough") { 257 } else { 65 };
         if let Some(a) = c.decoy_alpha {
             let _ = measure_pulse(&c.cepstrum, 0, false, c.rate, a, 0.0, 1.0);
+            // ... and one that is dropped while its filter is still ringing
+            crate::dsp::hot_decoy(&c.cepstrum, 0, false, c.rate, if c.cepstrum.len() % 2 == 0 { a } else { c.alpha }, 0.0);
         }
         let mut m = measure_pulse(&c.cepstrum, 0, c.log_gain_flag, c.rate, c.alpha, 0.0, c.volume);
         for v in m.frame1.iter_mut().chain(m.frame2.iter_mut()) {
